@@ -30,6 +30,7 @@ func scenariosC07() []*scenario {
 		{"dup-acked", 0, [][]string{{}, {}, {}}, [][]string{{"a", "a"}, {"a"}}, nil},
 		{"dup-with-other", 255, [][]string{{"b"}, {}}, [][]string{{"a"}, {"a", "b"}}, nil},
 		{"dup-with-new-issuer", 0, [][]string{{}, {}, {}}, [][]string{{"a+1"}, {"a+1"}}, nil},
+		{"cached-resubmission-into-full-pool", 0, [][]string{{}, {}, {}}, [][]string{{"a", "a"}, {"~b"}}, func(sc *scenario) { sc.poolSize = 1 }},
 		{"failed-round-resubmit", 0, [][]string{{"a"}, {}, {}}, [][]string{{"a"}}, func(sc *scenario) { sc.resubmit = true }},
 		{"precert-same-tbs", 0, [][]string{{}, {}}, [][]string{{"P1", "P1'"}, {"P1~x"}}, nil},
 		{"cert-vs-precert-same-bytes", 0, [][]string{{"tbs-P1"}, {}}, [][]string{{"P1"}}, nil},
